@@ -511,6 +511,9 @@ pub enum Step {
     Merge(u16, u16, bool),
     /// a run of `n` plain commands on one tip (cheap way to get long segments)
     Run(u16, u8, Body),
+    /// a ladder on one tip: two strands, one of which merges with the other after every step, so
+    /// that `n` commands of the plain strand are reachable along two paths (convergence points)
+    Ladder(u16, u16, Body),
 }
 
 #[derive(Clone, Copy, Debug, Default)]
@@ -632,6 +635,34 @@ impl World {
                     parent = self.push(id, kind, vec![parent], payload);
                 }
             }
+            Step::Ladder(at, n, b) => {
+                let base = tips[vcommon::idx(*at, tips.len())];
+                let mut bb = b.clone();
+                bb.poison = false;
+                if bb.prio >= 200 {
+                    bb.prio = 0;
+                }
+                let mut step = |w: &mut World, parent: usize, k: usize| -> usize {
+                    let mut x = bb.clone();
+                    x.id_hi = bb.id_hi.wrapping_add((k as u16).wrapping_mul(40503));
+                    x.prio = bb.prio.wrapping_add(k as u8) % 3;
+                    let payload = w.body_payload(parent, &x, opts);
+                    let id = make_id(x.id_hi, w.len());
+                    w.push(id, Kind::Basic(PRIOS[x.prio as usize % PRIOS.len()]), vec![parent], payload)
+                };
+                let mut a = step(self, base, 0);
+                let mut plain = step(self, base, 1);
+                for k in 0..(*n as usize) {
+                    let id = merge_id(&self.cmds[a].id, &self.cmds[plain].id);
+                    if self.by_id.contains_key(&id) {
+                        break;
+                    }
+                    let (l, r) = if self.cmds[a].id < self.cmds[plain].id { (a, plain) } else { (plain, a) };
+                    let m = self.push(id, Kind::Merge, vec![l, r], Payload::empty());
+                    a = step(self, m, 2 * k + 2);
+                    plain = step(self, plain, 2 * k + 3);
+                }
+            }
             Step::Merge(a, b, any) => {
                 let pool = if *any { &honest } else { &tips };
                 if pool.len() < 2 {
@@ -697,10 +728,26 @@ pub mod strategies {
             3 => (any::<u16>(), body(fin_weight)).prop_map(|(a, b)| Step::Branch(a, b)),
             3 => (any::<u16>(), any::<u16>(), prop::bool::weighted(0.25)).prop_map(|(a, b, c)| Step::Merge(a, b, c)),
             run_weight => (any::<u16>(), 2u8..40, body(0)).prop_map(|(a, n, b)| Step::Run(a, n, b)),
+            (run_weight / 3) => (any::<u16>(), 1u16..30, body(0)).prop_map(|(a, n, b)| Step::Ladder(a, n, b)),
         ]
     }
 
     pub fn recipe(max_steps: usize, fin_weight: u32, run_weight: u32) -> impl Strategy<Value = Vec<Step>> {
         prop::collection::vec(step(fin_weight, run_weight), 1..max_steps)
+    }
+
+    /// A ladder long enough to overflow the 256-entry in-memory blocks of the braid and of the
+    /// convergence map, plus a few ordinary steps before and after it.
+    pub fn spill_recipe() -> impl Strategy<Value = Vec<Step>> {
+        (
+            prop::collection::vec(step(0, 1), 0..4),
+            (any::<u16>(), 258u16..300, body(0)),
+            prop::collection::vec(step(0, 1), 0..6),
+        )
+            .prop_map(|(mut pre, (a, n, b), post)| {
+                pre.push(Step::Ladder(a, n, b));
+                pre.extend(post);
+                pre
+            })
     }
 }
